@@ -66,6 +66,12 @@ impl Rng {
     pub fn range(&mut self, lo: i64, hi: i64) -> i64 {
         lo + (self.next_u64() % ((hi - lo + 1) as u64)) as i64
     }
+    /// log-uniform in lo..=hi (lo >= 1): sizes drawn this way land on both sides of any
+    /// threshold in the range, not only of the ones a fixed list happens to bracket
+    pub fn log_uniform(&mut self, lo: usize, hi: usize) -> usize {
+        let (a, b) = ((lo.max(1) as f64).ln(), (hi.max(1) as f64 + 0.999).ln());
+        ((a + (b - a) * self.f64()).exp() as usize).clamp(lo, hi)
+    }
     pub fn f64(&mut self) -> f64 {
         (self.next_u64() >> 11) as f64 / (1u64 << 53) as f64
     }
